@@ -592,8 +592,8 @@ pub fn query() -> BoxedStrategy<Query> {
         1 => any::<u16>().prop_map(Query::OnVertex),
         1 => (any::<u16>(), 0u8..3, unif(0.0, 1.0)).prop_map(|(face, edge, t)| Query::OnEdge { face, edge, t }),
         1 => (any::<u16>(), unif(0.0, 1.0), unif(0.0, 1.0)).prop_map(|(face, b0, b1)| Query::InFace { face, b0, b1 }),
-        4 => (any::<u16>(), unif(0.0, 1.0), unif(0.0, 1.0), prop_oneof![unif(-1.5, 1.5), unif(-0.05, 0.05)]).prop_map(|(face, b0, b1, d)| Query::Offset { face, b0, b1, d }),
-        2 => (any::<u16>(), unit3(), unif(0.0, 1.0)).prop_map(|(i, dir, d)| Query::NearVertex { i, dir, d }),
+        4 => (any::<u16>(), unif(0.0, 1.0), unif(0.0, 1.0), prop_oneof![3 => unif(-1.5, 1.5), 3 => unif(-0.05, 0.05), 1 => logu(-7.0, -1.0), 1 => logu(-7.0, -1.0).prop_map(|d| -d)]).prop_map(|(face, b0, b1, d)| Query::Offset { face, b0, b1, d }),
+        2 => (any::<u16>(), unit3(), prop_oneof![2 => unif(0.0, 1.0), 1 => logu(-7.0, 0.0)]).prop_map(|(i, dir, d)| Query::NearVertex { i, dir, d }),
         1 => p3(8.0).prop_map(Query::Far),
     ]
     .boxed()
